@@ -88,6 +88,26 @@ pub fn build(rw: &mut Rng, rf: &mut Rng, o: &BuildOpts, st: &mut Stats) -> Built
 
 /// Reader knobs per run: capacities as small as the constructor's precondition allows, so that
 /// the BufReader refills inside records; sometimes the default constructor.
+/// A reader whose `message_max_len` is *smaller* than a length the stream declares: the stream
+/// breaks the promise the reader was configured with (hostile or corrupted LEN, or a deployment
+/// that sized the buffer for its own ECU's messages). Returns None when no record is larger than
+/// the fixed header.
+pub fn draw_tight_capacities(r: &mut Rng, medium: &[u8], storage: bool) -> Option<(usize, usize)> {
+    let hl = if storage { 20 } else { 4 };
+    let need = max_declared(medium, storage);
+    if need <= hl {
+        return None;
+    }
+    let msg_max = match r.below(4) {
+        0 => need - 1,
+        1 => hl,
+        2 => hl + r.below(need - hl),
+        _ => (need / 2).max(hl),
+    };
+    let buf_cap = msg_max + *r.pick(&[0usize, 0, 1, 16, 4096]);
+    Some((buf_cap, msg_max))
+}
+
 pub fn draw_capacities(r: &mut Rng, medium: &[u8], storage: bool, default_pct: usize) -> (usize, usize) {
     if r.chance(default_pct, 100) {
         return (0, 0);
@@ -290,6 +310,12 @@ pub fn minimise(
 
 /// keep explicit capacities legal for the (shrunk) medium
 pub fn fix_caps(c: &mut StreamCase) {
+    if c.tight_max {
+        let hl = if c.storage { 20 } else { 4 };
+        c.msg_max = c.msg_max.max(hl);
+        c.buf_cap = c.buf_cap.max(c.msg_max);
+        return;
+    }
     if c.buf_cap != 0 || c.msg_max != 0 {
         let need = max_declared(&c.medium, c.storage);
         let mut extra = 0;
@@ -324,6 +350,7 @@ pub struct CallPlan<'d> {
     pub terminal_calls: usize,
     pub calls: usize,
     max_main: usize,
+    limit: usize,
 }
 
 #[derive(PartialEq, Debug)]
@@ -334,12 +361,16 @@ pub enum Next {
 
 impl<'d> CallPlan<'d> {
     pub fn new(data: &'d [u8], storage: bool) -> Self {
-        let (p, _) = crate::model::cut_all(data, storage);
-        CallPlan { data, storage, pos: 0, extra_left: 2, in_extra: false, terminal_calls: 0, calls: 0, max_main: p.len() + 1 }
+        Self::new_lim(data, storage, 0)
+    }
+    /// `limit`: the reader's configured `message_max_len` (0 = none)
+    pub fn new_lim(data: &'d [u8], storage: bool, limit: usize) -> Self {
+        let (p, _) = crate::model::cut_all_lim(data, storage, limit);
+        CallPlan { data, storage, pos: 0, extra_left: 2, in_extra: false, terminal_calls: 0, calls: 0, max_main: p.len() + 1, limit }
     }
     /// `failed`: the source has returned a hard error
     pub fn after(&mut self, res: &crate::model::Res, failed: bool) -> Next {
-        use crate::model::{cut_at, Cut, Res};
+        use crate::model::{cut_at_lim, Cut, Res};
         self.calls += 1;
         if res.is_panic() || failed {
             if !self.in_extra {
@@ -351,12 +382,12 @@ impl<'d> CallPlan<'d> {
             self.extra_left -= 1;
             return if self.extra_left == 0 { Next::Stop } else { Next::Again };
         }
-        let terminal = match cut_at(self.data, self.pos, self.storage) {
+        let terminal = match cut_at_lim(self.data, self.pos, self.storage, self.limit) {
             Cut::Piece(n) => {
                 self.pos += n;
                 *res == Res::None || self.calls >= self.max_main
             }
-            Cut::ShortLen(_) => {
+            Cut::ShortLen(_) | Cut::Oversize(_) => {
                 self.terminal_calls = self.calls;
                 return Next::Stop;
             }
